@@ -47,7 +47,7 @@ C = pg.views.html.controls
 
 TIERS = {
     'quick': dict(shards=8, cases=200),
-    'thorough': dict(shards=16, cases=4000),
+    'thorough': dict(shards=16, cases=3000),
 }
 RULE = ('case = one description (60 % nested Dict/List/tuple/Object/Ref/Diff/'
         'contextual value rendered by the tree view under a random option set '
@@ -691,8 +691,10 @@ def build_control(d, S, mode):
       if c[0] == 'value':
         content = build(c[1], S, mode)
         # pg.Html.write() *calls* a callable (documented writable type), so a
-        # functor object is not a tab content that would be rendered.
-        if not isinstance(content, pg.Symbolic) or callable(content):
+        # functor object (also behind a pg.Ref, which attribute access
+        # dereferences) is not a tab content that would be rendered.
+        if (not isinstance(content, pg.Symbolic) or callable(content)
+            or isinstance(content, pg.Ref)):
           content = pg.Dict(v=content)
       elif c[0] == 'control':
         content = build_control(c[1], S, mode)
